@@ -1,6 +1,7 @@
 package main
 
 import (
+	"errors"
 	"io"
 
 	"github.com/cbehopkins/gkvlite"
@@ -17,7 +18,14 @@ const (
 	cbKeyCompare
 	cbRefCount
 	cbChunkMem // values chunked IN MEMORY (Val = first chunk, rest in Transient): the tools/slab pattern
+	cbCodec    // an inverse pair: BeforeItemWrite stores the value encoded (same length), AfterItemRead decodes it
 )
+
+// marks an item produced by the codec's BeforeItemWrite (already in its stored form)
+var codecEncoded interface{} = &struct{ x int }{1}
+
+// valOverhead: bytes the installed value codec adds to every stored value (enters GetTotals)
+var valOverhead int
 
 const cbAllNeutral = cbBeforeWrite | cbAfterRead | cbItemAlloc | cbValLength | cbValWrite | cbValRead | cbKeyCompare
 
@@ -28,6 +36,48 @@ func neutralCallbacks(set int, cmpOf map[string]int) gkvlite.StoreCallbacks {
 	}
 	if set&cbAfterRead != 0 {
 		cb.AfterItemRead = func(c *gkvlite.Collection, i *gkvlite.Item) (*gkvlite.Item, error) { return i, nil }
+	}
+	if set&cbCodec != 0 {
+		// what the application sees is unchanged; the bytes in the file are not the application's values (and one
+		// byte longer: a check byte), so this configuration is used only by checks whose oracles are at the API
+		cb.BeforeItemWrite = func(c *gkvlite.Collection, i *gkvlite.Item) (*gkvlite.Item, error) {
+			if i.Val == nil {
+				return i, nil
+			}
+			v := make([]byte, len(i.Val)+1)
+			sum := byte(len(i.Val))
+			for j, x := range i.Val {
+				v[j] = x ^ 0x5a
+				sum += x
+			}
+			v[len(i.Val)] = sum
+			return &gkvlite.Item{Key: i.Key, Val: v, Priority: i.Priority, Transient: codecEncoded}, nil
+		}
+		cb.AfterItemRead = func(c *gkvlite.Collection, i *gkvlite.Item) (*gkvlite.Item, error) {
+			if i.Val == nil {
+				return i, nil
+			}
+			if len(i.Val) == 0 {
+				return nil, errors.New("codec: stored value without its check byte")
+			}
+			n := len(i.Val) - 1
+			sum := byte(n)
+			for j := 0; j < n; j++ {
+				i.Val[j] ^= 0x5a
+				sum += i.Val[j]
+			}
+			if sum != i.Val[n] {
+				return nil, errors.New("codec: check byte mismatch")
+			}
+			i.Val = i.Val[:n:n]
+			return i, nil
+		}
+		cb.ItemValLength = func(c *gkvlite.Collection, i *gkvlite.Item) int {
+			if i.Transient == codecEncoded {
+				return len(i.Val)
+			}
+			return len(i.Val) + 1 // the length the value has in the file
+		}
 	}
 	if set&cbItemAlloc != 0 {
 		cb.ItemAlloc = func(c *gkvlite.Collection, keyLength uint32) *gkvlite.Item {
@@ -97,7 +147,12 @@ func neutralCallbacks(set int, cmpOf map[string]int) gkvlite.StoreCallbacks {
 		}
 	}
 	if set&cbKeyCompare != 0 {
-		cb.KeyCompareForCollection = func(name string) gkvlite.KeyCompare { return comparators[cmpOf[name]] }
+		cb.KeyCompareForCollection = func(name string) gkvlite.KeyCompare {
+			if cmpOf[name] == 0 {
+				return nil // "use the default" for collections ordered by bytes.Compare
+			}
+			return comparators[cmpOf[name]]
+		}
 	}
 	return cb
 }
